@@ -320,6 +320,70 @@ theorem error_is_budget (evs : List Ev) (hnn : ∀ e ∈ evs, 0 ≤ e.ts) (e : E
   · exact h1
   · exact absurd (h1 ▸ h) (no_fuel_exhaustion .tid evs)
 
+/-! ### converse of the budget branch -/
+
+/-- the slice passes both assertions of `overlap_detection` on lane `(pid, t)` and partially overlaps
+an open slice there (`check_overlap_condition` is true on a blocked lane) -/
+def Colliding (st : Lanes) (ev : Ev) (t : Nat) : Prop :=
+  let q := st (ev.pid, t)
+  q.cur ≤ ev.ts ∧ q.blocked = !q.ends.isEmpty ∧ q.blocked = true ∧ overlaps ev.ts ev.endOf q.ends = true
+
+/-- `chain` lists the lanes `find_next_tid` visits after lane `t`, up to the end of the range -/
+def RangeChain (next : Nat → Nat → Option Nat) (pid : Nat) : Nat → List Nat → Prop
+  | t, [] => next pid t = none
+  | t, t' :: r => next pid t = some t' ∧ RangeChain next pid t' r
+
+/-- **Converse of the budget branch** (stage level, any tid map, any lane table): a slice that
+collides on its own lane and on every lane of its range raises the `KeyError` of `find_next_tid`,
+provided the recursion budget covers the range (it always does: `no_fuel_exhaustion`).  Together
+with `error_is_budget` (the only failure on well-formed input is that `KeyError`) and
+`lane_budget` (a range has at most `max_tid_streams` lanes) this characterises the error branch. -/
+theorem collide_chain_raises (next : Nat → Nat → Option Nat) (st : Lanes) (chain : List Nat) :
+    ∀ (fuel : Nat) (ev : Ev), chain.length ≤ fuel → RangeChain next ev.pid ev.tid chain →
+      Colliding st ev ev.tid → (∀ t ∈ chain, Colliding st ev t) →
+      detect .tid next fuel st ev = .error .keyError := by
+  induction chain with
+  | nil =>
+    intro fuel ev _ hch hc _
+    obtain ⟨h1, h2, h3, h4⟩ := hc
+    simp only [RangeChain] at hch
+    unfold detect
+    simp only [Ev.lane] at *
+    have hne : (st (ev.pid, ev.tid)).ends ≠ [] := by
+      intro h; rw [h3, h] at h2; simp at h2
+    simp [h1, h2, h4, hch, hne]
+  | cons t' r ih =>
+    intro fuel ev hf hch hc hall
+    obtain ⟨hn, hrest⟩ := hch
+    obtain ⟨h1, h2, h3, h4⟩ := hc
+    cases fuel with
+    | zero => simp at hf
+    | succ f =>
+      have hrec := ih f { ev with tid := t' } (by simpa using hf) hrest
+        (hall t' (List.mem_cons_self ..)) (fun t ht => hall t (List.mem_cons_of_mem _ ht))
+      unfold detect
+      simp only [Ev.lane] at *
+      have hne : (st (ev.pid, ev.tid)).ends ≠ [] := by
+        intro h; rw [h3, h] at h2; simp at h2
+      simp [h1, h2, h4, hn, hrec, hne]
+
+/-- non-vacuity: three busy lanes 0 → 1 → 2 (end of range) and a slice [5, 15) that cuts the open
+end 10 on each of them -/
+example :
+    let next : Nat → Nat → Option Nat := fun _ t => if t < 2 then some (t + 1) else none
+    let st : Lanes := fun _ => ⟨1, true, [10]⟩
+    let ev : Ev := ⟨1, true, 0, 0, 5, 10⟩
+    RangeChain next ev.pid ev.tid [1, 2] ∧ Colliding st ev ev.tid ∧ (∀ t ∈ [1, 2], Colliding st ev t) ∧
+      detect .tid next 2 st ev = .error .keyError := by
+  intro next st ev
+  have hc : ∀ t, Colliding st ev t := by
+    intro t
+    refine ⟨by decide +kernel, by decide, rfl, by decide +kernel⟩
+  have hch : RangeChain next ev.pid ev.tid [1, 2] := by
+    simp [RangeChain, next, ev]
+  exact ⟨hch, hc _, fun t _ => hc t,
+    collide_chain_raises next st [1, 2] 2 ev (by simp) hch (hc _) (fun t _ => hc t)⟩
+
 /-- **-O drop is total on well-formed input**: it always produces an output (to which
 `laminar_drop` and `drop_sublist` apply). -/
 theorem drop_total (evs : List Ev) (hnn : ∀ e ∈ evs, 0 ≤ e.ts) : ∃ out, pipeline .drop evs = .ok out := by
